@@ -56,12 +56,13 @@ class Check(BaseCheck):
             if len(np.unique(c["t"])) != len(c["v"]):
                 continue
             yield dict(kind="flow", v=c["v"], t=c["t"], max_iter=int(rng.integers(0, 5)), step=float(rng.uniform(0.1, 2.0)),
-                       stop_eps=float(rng.choice([1e-13, 1e-3])), name=c["name"])
+                       stop_eps=float(rng.choice([1e-13, 1e-3])), name=c["name"], pres=c.get("pres"))
 
     def correspond(self, drv, stats):
         fails = []
         for case in self.flow_cases(self.seed, 14 if self.quick else 150):
             v, t = case["v"], case["t"]
+            gen.use(case)
             stats.case(core.mesh_key(v, t, case["max_iter"], case["step"]), cls=["flow:" + case["name"], "max_iter:%d" % case["max_iter"]],
                        sample=dict(name=case["name"], nv=len(v), max_iter=case["max_iter"], step=case["step"]))
             try:
